@@ -77,6 +77,7 @@ class Interp:
         self.fresh = fresh
         self.enum_results = enum_results
         self.int_symbols = False
+        self.name_values = False
         self.start_block = 0
 
     # ---- driver: enumerate choice sequences -----------------------------------------------------
@@ -312,6 +313,9 @@ class Interp:
                     v = self._agg(rv, [self._operand(env, heap, o, proms) for o in rv["o"]])
                 elif k == "bin":
                     v = self._bin(rv, [self._operand(env, heap, o, proms) for o in rv["o"]], rel)
+                    if v is UNK and self.name_values and rv.get("op") in ("Add", "Sub", "Mul", "Div") and not s["d"]["p"]:
+                        # arithmetic is opaque to the ordering domain: its result is a fresh symbol named after the variable it defines
+                        v = sym(self._value_name(fn, s["d"]["l"], s.get("ln")))
                 elif k == "un":
                     x = self._operand(env, heap, rv["o"][0], proms)
                     if rv["op"] == "Not" and x and x[0] == "bool":
@@ -507,6 +511,38 @@ class Interp:
             return r
         return self._unknown_result(fn, t)
 
+    def _value_name(self, fn, l, ln):
+        """debug name of the user variable a temporary is (transitively) copied into, else a site name"""
+        nm = fn["names"].get(str(l))
+        if nm:
+            return f"{nm}@{ln}"
+        seen = {l}
+        cur = l
+        for _ in range(6):
+            nxt = None
+            for bb in fn["bbs"]:
+                for st in bb["s"]:
+                    if st["r"]["k"] == "use" and st["r"]["o"] and "l" in st["r"]["o"][0] and st["r"]["o"][0]["l"] == cur and not st["r"]["o"][0]["p"] and not st["d"]["p"]:
+                        nxt = st["d"]["l"]
+                    elif st["r"]["k"] == "agg" and st["r"].get("ak") == "tuple" and not st["d"]["p"]:
+                        for i, o in enumerate(st["r"]["o"]):
+                            if "l" in o and o["l"] == cur and not o["p"]:
+                                # packed into a tuple: follow the unpacking `x = T.i`
+                                for bb2 in fn["bbs"]:
+                                    for st2 in bb2["s"]:
+                                        o2 = st2["r"]["o"][0] if st2["r"]["k"] == "use" and st2["r"]["o"] else None
+                                        if o2 and "l" in o2 and o2["l"] == st["d"]["l"] and len(o2["p"]) == 1 and isinstance(o2["p"][0], list) and o2["p"][0][0] == "f" \
+                                                and o2["p"][0][3] == i and not st2["d"]["p"]:
+                                            nxt = st2["d"]["l"]
+            if nxt is None or nxt in seen:
+                break
+            seen.add(nxt)
+            cur = nxt
+            nm = fn["names"].get(str(cur))
+            if nm:
+                return f"{nm}@{ln}"
+        return f"t{ln}_{l}"
+
     def _unknown_result(self, fn, t):
         d = t["dest"]
         ty = fn["locals"][d["l"]] if not d["p"] and d["l"] < len(fn["locals"]) else ""
@@ -520,6 +556,10 @@ class Interp:
             self._assump.append(("callret", where, bool(c), t["callee"], t["ln"]))
             return ("bool", bool(c))
         if self.fresh:
+            if self.name_values and not d["p"]:
+                nm = self._value_name(fn, d["l"], t["ln"])
+                if not nm.startswith("t"):
+                    return sym(nm)
             return sym(f"r{t['ln']}_{d['l']}")
         return UNK
 
